@@ -9,7 +9,7 @@ RULE = ("valid delegating-metadata documents (both types, 0-3 keys per role, opt
         "33 other values (all kinds, Infinity/NaN/10^400/bool), key-string and timestamp near-misses, duplicated list elements, "
         "extra fields, dict-as-list; non-trivial = a document whose envelope shape is intact (reaches the field checks); distinct by document")
 
-THEOREMS = ["checker_iff_schema", "required_field_removed", "accepted_never_internal"]
+THEOREMS = ["checker_iff_schema", "required_field_removed", "accepted_never_internal", "signature_indexes_irrelevant"]
 
 
 def run(ck: Check) -> None:
